@@ -210,7 +210,7 @@ def oracle(chk, case: dict, outs: List[list]):
     connected = True
     stream_empty = False                            # the cut remainder has been consumed
     rst_pending = end == "rst"
-    rep = dict(case={k: case[k] for k in ("chunks", "end", "calls", "frames", "sent", "tag")}, observed=outs)
+    rep = dict(case={k: case.get(k) for k in ("chunks", "end", "calls", "frames", "sent", "tag", "prelude")}, observed=outs)
 
     def fail(key, desc):
         chk.spec_failure(key, f"{desc}; call {j} of {json.dumps(case['calls'][j])}; observed {outs[j]} "
@@ -346,6 +346,19 @@ def gen_cases(rng: random.Random, tier: str):
     fs = frames_of(["unsub", "good", "unsub", "zero"])
     yield mk_case(fs, [call(0, sub=[T_UNSUB], via="api"), call(0, sub=[T_ZERO], via="api"), call(0.02, sub=[T_ZERO], via="api"),
                        call(0, sub_all=True, sub=[], via="api")], "open", tag="api-resubscribe-with-queue")
+    # (h) the SAME Client object on a second connection: subscriptions made on an earlier connection that the peer ended
+    # (ConnectionLost) are not subscriptions of the new one - the new connection starts with none
+    for pend in ("fin", "rst"):
+        for pre in (dict(sub=[T_UNSUB], sub_all=False), dict(sub=[T_UNSUB, T_ZERO], sub_all=False, pause=[T_ZERO]),
+                    dict(sub=[], sub_all=True)):
+            pre = dict(pre, end=pend)
+            fs = frames_of(["unsub", "good", "unsub", "zero"])
+            c0 = dict(call(0, sub=[T_GOOD], via="api_add"), add=[T_GOOD])
+            yield dict(mk_case(fs, [c0] + [call(0, sub=[T_GOOD], via="keep")] * 4, "open", tag="reconnect-after-loss"), prelude=pre)
+            fs = frames_of(["unsub", "zero", "good"])
+            yield dict(mk_case(fs, [call(0, sub=[], via="keep")] * 4, "open", tag="reconnect-after-loss"), prelude=pre)
+            fs = frames_of(["unsub", "good"])
+            yield dict(mk_case(fs, [call(0.02, sub=[], via="keep")] * 2, "open", tag="reconnect-after-loss"), prelude=pre)
     # (f) ACKNOWLEDGE frames with and without ack=True
     for ackflag in (False, True):
         for t in (0, None):
@@ -372,7 +385,7 @@ def run(chk: Check):
             proved = False
 
     cases = list(gen_cases(rng, chk.tier))
-    wcases = [dict(chunks=c["chunks"], end=c["end"], calls=c["calls"]) for c in cases]
+    wcases = [dict(chunks=c["chunks"], end=c["end"], calls=c["calls"], prelude=c.get("prelude")) for c in cases]
     results, meta = run_worker("c08", wcases, dict(defs=DEFS))
     table = meta.get("table", [])
     if meta.get("header_size") != HSZ:
@@ -401,6 +414,10 @@ def run(chk: Check):
         kinds_seen = {o[0] + (o[1] if o[0] == "exc" else "") for o in outs}
         if len(kinds_seen) >= 3:
             nontrivial.add(json.dumps([case["chunks"], case["end"], case["calls"]]))
+        if case.get("prelude") and res.get("prelude") != ["exc", "ConnectionLost", "", False]:
+            chk.spec_failure("lost:earlier-connection", f"the peer ended the first connection ({case['prelude']}); read_message gave "
+                             f"{res.get('prelude')}, expected ConnectionLost and a disconnected client",
+                             dict(case={k: case[k] for k in ("chunks", "end", "calls", "frames", "sent", "tag", "prelude")}))
         oracle(chk, case, outs)
         coq_cases.append(case_coq(case, outs, table))
     chk.cov["evaluations"] = reads
@@ -443,7 +460,7 @@ def run(chk: Check):
 def replay(path: str) -> int:
     d = json.load(open(path))
     case = d["replay"]["case"]
-    res, meta = run_worker("c08", [dict(chunks=case["chunks"], end=case["end"], calls=case["calls"])], dict(defs=DEFS))
+    res, meta = run_worker("c08", [dict(chunks=case["chunks"], end=case["end"], calls=case["calls"], prelude=case.get("prelude"))], dict(defs=DEFS))
     outs = res[0].get("outs")
     print(json.dumps(dict(case=case, observed=res[0]), indent=1))
 
